@@ -171,6 +171,7 @@ func runC08(c *Ctx) {
 	ruleRetry(c, p, r, rule)
 	rulePacketRead(c, p, rule)
 	rulePacketDeadline(c, p, "C08.deadline")
+	ruleNoPrivateTimer(c, p, "C08.timer")
 	codes := serverCodes(p)
 	okCodes := len(codes) > 0
 	for n, v := range codes {
